@@ -463,3 +463,37 @@ def cmp_plate(i, P0, P1, expect, names=True):
                 if w.contents != got.contents or w.volume != got.volume or w.max_volume != got.max_volume or w.name != got.name:
                     fails.append((i, f"well {a},{b} was not addressed but changed"))
     return fails
+
+
+# ----------------------------------------------------------------------------- %w/v under a setting changed in a running session
+def wv_runtime_probe():
+    """config.default_weight_volume_units set in a running session (the idiom the library's own tests use for other settings):
+    create_solution(..., '5 %w/v', ...) holds five hundredths of THAT unit, and get_concentration(..., '%w/v') reads it back"""
+    from pyplate import Substance, Container
+    from pyplate.pyplate import config
+    fails = []
+    saved = config.default_weight_volume_units
+    try:
+        for unit, g_per_L in (('g/L', F(1)), ('mg/mL', F(1)), ('g/mL', F(1000))):
+            config.default_weight_volume_units = unit
+            w = Substance.liquid('water', 18.0153, 1)
+            s = Substance.solid('NaCl', 58.44)
+            try:
+                c = Container.create_solution(s, w, concentration='5 %w/v', total_quantity='100 mL')
+            except Exception as e:  # noqa
+                fails.append(f"with default_weight_volume_units = {unit!r} set in a running session, create_solution('5 %w/v', '100 mL') raised {type(e).__name__}: {e}")
+                continue
+            grams = F(c.contents[s]) * F(1, 10**6) * F('58.44')
+            litres = F(c.volume) * F(1, 10**6)
+            want = F(5, 100) * g_per_L
+            if abs(grams / litres - want) > want * F(1, 10**6):
+                fails.append(f"with default_weight_volume_units = {unit!r} set in a running session, create_solution(NaCl, water, '5 %w/v', '100 mL') holds "
+                             f"{float(grams / litres)!r} g/L; five hundredths of a {unit} are {float(want)!r} g/L")
+            got = F(repr(c.get_concentration(s, '%w/v')))
+            exp = grams / litres / g_per_L * 100
+            if abs(got - exp) > abs(exp) * F(1, 10**6) + F(1, 10**9):
+                fails.append(f"with default_weight_volume_units = {unit!r} set in a running session, get_concentration(NaCl, '%w/v') = {float(got)!r}; "
+                             f"the contents give {float(exp)!r} hundredths of a {unit}")
+    finally:
+        config.default_weight_volume_units = saved
+    return fails
